@@ -41,7 +41,7 @@ DRIVER_SRCS = [
 OS_WRAPS = ["open", "close", "pwrite", "flock", "unlink", "access"]
 
 RULES = {
-    "C14": {"RawFileMissing", "RawFileShiftedByHole", "RawFileMismatch"},
+    "C14": {"RawFileMissing", "RawFileShiftedByHole", "RawFileMismatch", "OpenWrongPath"},
     "C15": {"BadHeader", "FirstLinkOutsideFile", "DirectoryOutsideFile", "RequiredTagMissing", "StripOutsideFile",
             "DescriptionOutsideFile", "LinkOutsideFile", "StructuresOverlap", "WrongWidthHeight", "WrongBitsPerSample",
             "WrongSampleFormat", "StripBytesDiffer", "DescriptionNotJson", "DescriptionWrongIds", "MetadataNotOnFirstFrame",
@@ -49,7 +49,7 @@ RULES = {
             "MetadataJsonWrong"},
     "C16": {"DoubleClose", "CloseForeignDescriptor", "CloseStdDescriptor", "CloseNeverOpened", "WriteAfterClose",
             "WriteForeignDescriptor", "WriteNeverOpened", "FlockAfterClose", "FlockForeignDescriptor", "FlockNeverOpened",
-            "DescriptorLeak", "FailureNotReported", "RunningAfterCreateFailed", "Crash", "StackOverflow", "Timeout"},
+            "DescriptorLeak", "FailureNotReported", "RunningAfterCreateFailed", "Crash", "StackOverflow", "Timeout", "OpenWrongPath"},
 }
 HARNESS_RULES = {"HarnessBadEvent", "HarnessNestedCall", "HarnessFdNotLowestFree", "HarnessPwriteResult",
                  "HarnessFileModelMismatch", "UnknownEvent", "ChainOrderBroken", "HarnessEofCount", "HarnessBadAcq",
